@@ -355,6 +355,11 @@ pub fn install_panic_hook() {
             .map(|l| format!("{}:{}", l.file(), l.line()))
             .unwrap_or_else(|| "?".to_string());
         let quiet = QUIET.with(|q| *q.borrow());
+        if quiet && (msg.contains("unsafe precondition") || msg.contains("misaligned pointer dereference") || msg.contains("null pointer dereference")) {
+            // the compiler's undefined-behaviour checks panic without unwinding: the process aborts and `guarded` never
+            // gets to report it, so the message goes to stderr for the driver to see
+            eprintln!("vharness: monitored code failed an undefined-behaviour check: {msg} at {loc}");
+        }
         if quiet && std::env::var("VERIF_LOUD").is_ok() {
             // debugging aid: show the backtrace of a guarded (attributed) panic
             default(info);
